@@ -214,9 +214,39 @@ func (w *zzWorld) connect(addr string, verified bool) (*zzConn, hap.Session) {
 	return c, s
 }
 
+// zzBodyChunk > 0 makes request bodies arrive in pieces of at most that many bytes per Read
+// (a body that spans several frames / TCP segments); 0 delivers the body in one Read.
+var zzBodyChunk int
+
+type zzSlowBody struct {
+	data  []byte
+	chunk int
+}
+
+func (b *zzSlowBody) Read(p []byte) (int, error) {
+	if len(b.data) == 0 {
+		return 0, io.EOF
+	}
+	n := len(p)
+	if n > b.chunk {
+		n = b.chunk
+	}
+	if n > len(b.data) {
+		n = len(b.data)
+	}
+	copy(p, b.data[:n])
+	b.data = b.data[n:]
+	return n, nil
+}
+func (b *zzSlowBody) Close() error { return nil }
+
 func zzRequest(method, path, remote string, form url.Values, body []byte) *http.Request {
-	return &http.Request{Method: method, URL: &url.URL{Path: path}, RemoteAddr: remote, Form: form,
-		Body: ioutil.NopCloser(bytes.NewBuffer(body)), Header: http.Header{}}
+	r := &http.Request{Method: method, URL: &url.URL{Path: path}, RemoteAddr: remote, Form: form,
+		Body: ioutil.NopCloser(bytes.NewBuffer(body)), Header: http.Header{}, ContentLength: int64(len(body))}
+	if zzBodyChunk > 0 {
+		r.Body = &zzSlowBody{data: append([]byte{}, body...), chunk: zzBodyChunk}
+	}
+	return r
 }
 
 var _ crypto.Cryptographer = zzCrypt{}
